@@ -228,14 +228,23 @@ def run(ctx: Ctx):
     if not ctx.quick:
         cli += [("long-repeat", 'parser {\n /a{1000}/;\n "z";\n}\n', []), ("long-binary", 'parser {\n "%s"b;\n}\n' % ("61 " * 2500), ["-O3"]),
                 ("long-case", "parser {\n case {\n" + "".join(' "k%04d" -> {}\n' % i for i in range(1500)) + " }\n}\n", [])]
+    # set / dict iteration order: the in-process runs above all share one hash seed; labels that mix END with byte values (inverted sets
+    # in EOF-less and EOF builds, sets touching 0x00 / 0xff) through range collapsing in fresh processes under several seeds
+    order_progs = [("inv-nul", 'parser {\n b/[^00-08]+/;\n "00"b;\n}\n'), ("inv-ff", 'out str[8] s;\nparser {\n s += b/[^f0-ff 00]+/;\n "ff"b;\n}\n'),
+                   ("inv-text", 'hook h;\nparser {\n loop {\n  case {\n   /[^a-f0-9]/ -> { h(); }\n   /[a-f]+/ -> { }\n   end -> { break; }\n  }\n }\n}\n'),
+                   ("inv-two", 'parser {\n b/[^00 01 02 03 fd fe ff]*/;\n b/[00-03]/;\n /[^\\n]*/;\n "\\n";\n}\n')]
+    for hs in (range(1, 5) if ctx.quick else range(1, 13)):
+        for label, src in (order_progs[:3] if ctx.quick else order_progs):
+            cli.append(("hash-order:%s" % label, src, [rng.choice(["-O2", "-O3"])] + (["-feof-support"] if "end ->" in src or rng.random() < 0.3 else []), {"PYTHONHASHSEED": str(hs)}))
     with tempfile.TemporaryDirectory(prefix="c18cli") as td:
-        for label, src, args in cli:
+        for label, src, args, *envx in cli:
+            env = dict(os.environ, **(envx[0] if envx else {}))
             fn = os.path.join(td, "prs.nmfu")
             open(fn, "w").write(src)
             ctx.evaluations += 1
             ctx.count("cli_runs")
             try:
-                pr = subprocess.run(["/venv/bin/python", os.path.join(repo, "nmfu.py")] + args + [fn], cwd=td, capture_output=True, text=True, timeout=900)
+                pr = subprocess.run(["/venv/bin/python", os.path.join(repo, "nmfu.py")] + args + [fn], cwd=td, capture_output=True, text=True, timeout=900, env=env)
             except subprocess.TimeoutExpired:
                 unresolved.append({"nmfu_source": src, "nmfu_args": args, "why": "command line run exceeded the watchdog"})
                 continue
